@@ -4,7 +4,7 @@ substituted inputs; what is regenerated and proved against the model is the *ass
 with (1 - done), the entropy term of the SAC target, the three-term PPO/A2C loss, advantage
 normalisation, the unclipped surrogate term, the delayed-actor guard of TD3."""
 _ADV = dict(
-    start=r"^advantages = \(advantages - ", end=None, kind="expr", ret="Q",
+    start=r"^advantages = \(", end=None, kind="expr", ret="Q",
     inputs=[("adv", "Q"), ("mean", "Q"), ("std", "Q")],
     subst={"advantages": "adv", "advantages.mean()": "mean", "advantages.std()": "std"},
 )
@@ -27,20 +27,30 @@ SPECS = [
     dict(name="a2c_loss", file="stable_baselines3/a2c/a2c.py", qual="A2C.train", **_LOSS),
     dict(name="dqn_target_frag", file="stable_baselines3/dqn/dqn.py", qual="DQN.train", **_TARGET),
     dict(name="sac_target_frag", file="stable_baselines3/sac/sac.py", qual="SAC.train", **_TARGET),
-    dict(name="sac_soft_value", file="stable_baselines3/sac/sac.py", qual="SAC.train", start=r"^next_q_values = next_q_values - ", end=None, kind="expr", ret="Q",
+    dict(name="sac_soft_value", file="stable_baselines3/sac/sac.py", qual="SAC.train", start=r"^next_q_values = next_q_values\b", end=None, kind="expr", ret="Q",
          inputs=[("nq", "Q"), ("ent_coef", "Q"), ("nlp", "Q")],
          subst={"next_q_values": "nq", "next_log_prob.reshape(-1, 1)": "nlp"}),
     dict(name="td3_target_frag", file="stable_baselines3/td3/td3.py", qual="TD3.train", **_TARGET),
-    dict(name="td3_delay_guard", file="stable_baselines3/td3/td3.py", qual="TD3.train", start=r"^if self\._n_updates % ", end=None, kind="test",
+    dict(name="td3_delay_guard", file="stable_baselines3/td3/td3.py", qual="TD3.train", start=r"^if self\._n_updates\b", end=None, kind="test",
          inputs=[("n_updates", "Z"), ("policy_delay", "Z")], subst={"self._n_updates": "n_updates", "self.policy_delay": "policy_delay"}),
     # ---- optimizer-facing logic
     dict(name="lr_assigned", file="stable_baselines3/common/utils.py", qual="update_learning_rate", start=r"^param_group\['lr'\] = ", end=None, kind="expr", ret="Q",
          inputs=[("learning_rate", "Q")]),
     dict(name="lr_progress_arg", file="stable_baselines3/common/base_class.py", qual="BaseAlgorithm._update_learning_rate", start=r"^update_learning_rate\(", end=None,
-         kind="subexpr", pick=r"self\._current_progress_remaining|\d+(\.\d+)?", ret="Q", inputs=[("progress", "Q")], subst={"self._current_progress_remaining": "progress"}),
-    dict(name="sac_auto_target_entropy", file="stable_baselines3/sac/sac.py", qual="SAC._setup_model", start=r"^self\.target_entropy = float\(-", end=None, kind="expr", ret="Q",
+         kind="subexpr", pick=r"(?!update_learning_rate\b|self\.lr_schedule\b|optimizer$|self$)(?s:.+)", ret="Q", inputs=[("progress", "Q")], subst={"self._current_progress_remaining": "progress"}),
+    dict(name="sac_auto_target_entropy", file="stable_baselines3/sac/sac.py", qual="SAC._setup_model", start=r"^self\.target_entropy = float\((?!self)", end=None, kind="expr", ret="Q",
          inputs=[("prod", "Q")], subst={"np.prod(self.env.action_space.shape).astype(np.float32)": "prod"}),
-    dict(name="sac_default_init", file="stable_baselines3/sac/sac.py", qual="SAC._setup_model", start=r"^init_value = \d", end=None, kind="expr", ret="Q", inputs=[]),
+    dict(name="sac_default_init", file="stable_baselines3/sac/sac.py", qual="SAC._setup_model", start=r"^init_value = (?!float)", end=None, kind="expr", ret="Q", inputs=[]),
     dict(name="sac_log_arg", file="stable_baselines3/sac/sac.py", qual="SAC._setup_model", start=r"^self\.log_ent_coef = ", end=None, kind="subexpr",
-         pick=r"th\.ones\(1, device=self\.device\) \* init_value", ret="Q", inputs=[("one", "Q"), ("init_value", "Q")], subst={"th.ones(1, device=self.device)": "one"}),
+         pick=r"(?!th\.log\b|th$|self)(?s:.*)\binit_value\b.*", ret="Q", inputs=[("one", "Q"), ("init_value", "Q")], subst={"th.ones(1, device=self.device)": "one"}),
+    # SAC actor loss: the term under .mean()  (entropy sign)
+    dict(name="sac_actor_term_frag", file="stable_baselines3/sac/sac.py", qual="SAC.train", start=r"^actor_loss = ", end=None, kind="subexpr",
+         pick=r"[^()]*\bent_coef\b[^()]*", ret="Q", inputs=[("ent_coef", "Q"), ("log_prob", "Q"), ("min_qf_pi", "Q")]),
+    # PPO clip bounds: the two bound arguments of th.clamp(ratio, 1 - clip_range, 1 + clip_range)
+    dict(name="ppo_clip_lo", file="stable_baselines3/ppo/ppo.py", qual="PPO.train", start=r"^policy_loss_2 = ", end=None, kind="subexpr",
+         pick=r"[^(),+]*-[^(),+]*", ret="Q", inputs=[("clip_range", "Q")]),
+    dict(name="ppo_clip_hi", file="stable_baselines3/ppo/ppo.py", qual="PPO.train", start=r"^policy_loss_2 = ", end=None, kind="subexpr",
+         pick=r"[^(),\-]*\+[^(),\-]*", ret="Q", inputs=[("clip_range", "Q")]),
+    dict(name="ppo_vclip_lo", file="stable_baselines3/ppo/ppo.py", qual="PPO.train", start=r"^values_pred = rollout_data\.old_values", end=None, kind="subexpr",
+         pick=r"-clip_range_vf|-\s*[^(),]*clip[^(),]*", ret="Q", inputs=[("clip_range_vf", "Q"), ("clip_range", "Q")]),
 ]
